@@ -109,7 +109,11 @@ def run(ctx: Any, prog: Program) -> None:
         if minor < 3:
             ws = ws.rstrip('x')       # 7.2 pads the header to 80 bytes; the reader seeks by header_size
             rs = rs.rstrip('x')
-        ctx.check('C15.F1', rs == ws and '[' not in rs, vtf, sv, f'version 7.{minor}: read() consumes `{rs}` but save() produces `{ws}`', func='VTF.save', text=f'slots v7.{minor}')
+        if '[' in rs or '[' in ws:
+            # a gate the configuration does not decide: the token strings are not comparable, no verdict
+            ctx.shape('C15.F1', False, vtf, sv, f'version 7.{minor}: read() consumes `{rs}` but save() produces `{ws}`', func='VTF.save', text=f'slots v7.{minor}')
+        else:
+            ctx.check('C15.F1', rs == ws, vtf, sv, f'version 7.{minor}: read() consumes `{rs}` but save() produces `{ws}`', func='VTF.save', text=f'slots v7.{minor}')
     # header linkage
     hr = [n for n in walk_no_nested(rd) if isinstance(n, ast.Assign) and isinstance(n.value, ast.Call) and dotted(n.value.func) == '_HEADER.unpack']
     hw = [n for n in walk_no_nested(sv) if isinstance(n, ast.Call) and dotted(n.func) == '_HEADER.pack']
@@ -683,7 +687,11 @@ def run(ctx: Any, prog: Program) -> None:
         ri = Extractor(vtf, fold, Config({'version': ver}, None), 'SheetSequence', {}).extract(fr_)
         wi = Extractor(vtf, fold, Config({'version': ver}, None), 'SheetSequence', {}).extract(mk)
         rs, ws = simplify(flatten(ri)), simplify(flatten(wi))
-        ctx.check('C15.F6', rs == ws and '[' not in rs, vtf, mk, f'sheet version {ver}: from_resource consumes `{rs}`, make_data produces `{ws}`', func='SheetSequence.make_data', text=f'sheet slots v{ver}')
+        if '[' in rs or '[' in ws:
+            # a gate the configuration does not decide: the token strings are not comparable, no verdict
+            ctx.shape('C15.F6', False, vtf, mk, f'sheet version {ver}: from_resource consumes `{rs}`, make_data produces `{ws}`', func='SheetSequence.make_data', text=f'sheet slots v{ver}')
+        else:
+            ctx.check('C15.F6', rs == ws, vtf, mk, f'sheet version {ver}: from_resource consumes `{rs}`, make_data produces `{ws}`', func='SheetSequence.make_data', text=f'sheet slots v{ver}')
         ra, wa = atoms(ri), atoms(wi)
         for a, b in zip(ra, wa):
             if a.names and b.names and len(a.names) == len(b.names):
